@@ -125,6 +125,38 @@ pub fn catch<R>(f: impl FnOnce() -> R) -> Result<R, String> {
     })
 }
 
+/// Owns a value of the code under test and drops it under `catch`: a destructor that panics (for
+/// example on a poisoned lock) while another panic is unwinding would otherwise abort the process.
+pub struct Guarded<T>(Option<T>);
+
+impl<T> Guarded<T> {
+    pub fn new(v: T) -> Self {
+        Guarded(Some(v))
+    }
+    /// drop now; Err(panic message) if the destructor unwound
+    pub fn drop_now(mut self) -> Result<(), String> {
+        match self.0.take() {
+            Some(v) => catch(move || drop(v)),
+            None => Ok(()),
+        }
+    }
+}
+
+impl<T> std::ops::Deref for Guarded<T> {
+    type Target = T;
+    fn deref(&self) -> &T {
+        self.0.as_ref().expect("guarded value present")
+    }
+}
+
+impl<T> Drop for Guarded<T> {
+    fn drop(&mut self) {
+        if let Some(v) = self.0.take() {
+            let _ = catch(move || drop(v));
+        }
+    }
+}
+
 // ---------------------------------------------------------------------------------------------
 // known findings
 
@@ -241,6 +273,7 @@ impl<'a> FuzzInput<'a> {
                         0 => s.push_str("\x1b[31m"),
                         1 => s.push_str("\x1b[0m"),
                         2 => s.push('\u{e9}'),
+                        3 => s.push_str(&"\u{9032}".repeat(1 + self.n(cols / 2 + 1))),
                         _ => {
                             for _ in 0..=self.n(5) {
                                 s.push(self.pick(&['a', 'b', 'Z', '0', ' ', '.', ':', '#', '=', '-']));
@@ -267,6 +300,7 @@ impl<'a> FuzzInput<'a> {
         match self.n(8) {
             0 | 1 => String::new(),
             2 | 3 => "m".repeat(cols.saturating_sub(6) + self.n(9)),
+            4 => "\u{9032}".repeat(cols / 4 + self.n(cols / 2 + 1)),
             _ => (0..=self.n(4)).map(|_| self.pick(&['a', 'b', 'c', 'x', 'y'])).collect(),
         }
     }
@@ -345,10 +379,16 @@ fn tag(s: &str) -> u64 {
 }
 
 fn run_guarded<C>(run: fn(&C) -> CaseResult, c: &C) -> CaseResult {
-    match catch(|| run(c)) {
+    take_wide_gap();
+    let r = match catch(|| run(c)) {
         Ok(r) => r,
         Err(p) => Err(Fail::new("panic", format!("unexpected panic: {p}"))),
+    };
+    if take_wide_gap() {
+        // a double-width character met the last cell of a row: terminal-dependent, out of domain
+        return Ok(Verdict { labels: vec!["discarded_wide_glyph_at_right_margin"], nontrivial: false });
     }
+    r
 }
 
 fn is_known<C>(
@@ -907,4 +947,33 @@ pub fn start_watchdog(secs: u64) {
         println!("HARNESS-PROBLEM: watchdog fired after {secs}s (inconclusive, not a violation)");
         std::process::exit(2);
     });
+}
+
+/// `&'static str` for a signature assembled at run time (a handful of distinct values per run).
+pub fn intern(s: String) -> &'static str {
+    use std::collections::HashMap;
+    use std::sync::{Mutex, OnceLock};
+    static POOL: OnceLock<Mutex<HashMap<String, &'static str>>> = OnceLock::new();
+    let mut pool = POOL.get_or_init(Default::default).lock().unwrap();
+    if let Some(v) = pool.get(&s) {
+        return v;
+    }
+    let v: &'static str = Box::leak(s.clone().into_boxed_str());
+    pool.insert(s, v);
+    v
+}
+
+thread_local! {
+    static WIDE_GAP: std::cell::Cell<bool> = const { std::cell::Cell::new(false) };
+}
+
+/// The reference wrapping met a double-width character that did not fit the last cell of a row.
+pub fn note_wide_gap() {
+    WIDE_GAP.with(|g| g.set(true));
+}
+
+/// Did that happen on this thread since the last call? Where such a character goes is
+/// terminal-dependent and indicatif documents no accounting for it: those cases are out of domain.
+pub fn take_wide_gap() -> bool {
+    WIDE_GAP.with(|w| w.replace(false))
 }
